@@ -28,14 +28,15 @@ Proof. exact cmd_fault_beyond. Qed.
 
 (* ---------- Part 2: a failure on any reachable repository ---------- *)
 (* Make the k-th modifying effect of any command fail, on any reachable
-   repository: the repository stays connected (HEAD clause excepted inside the
-   rename window), and if that effect belongs to the fault-free run the command
+   repository: the repository stays connected (`branch --rename` included: it
+   writes the new branch, re-points HEAD and only then removes the old branch),
+   and if that effect belongs to the fault-free run the command
    answers with an error and the disk holds exactly the earlier effects — no
    branch is ever advanced to a commit lacking its parent link, snapshot or
    blobs, because every prefix state is connected *)
 Theorem C16_fault_safe : forall h e c k r s',
   Forall action_ok h -> run_cmd e c (mkMS (run h w_empty) [] (Some k)) = (r, s') -> ~ Bad (ms_w s') ->
-  ConnectedNoHead (ms_w s') /\ (~ is_rename c -> Connected (ms_w s')) /\
+  Connected (ms_w s') /\
   (forall r0 w0 tr, run_m (run_cmd e c) (run h w_empty) = (r0, w0, tr) -> k < length tr ->
      r = Err /\ ms_w s' = apply_effects (firstn k tr) (run h w_empty)).
 Proof. exact reachable_fault_safe. Qed.
